@@ -825,6 +825,7 @@ package res
 //@ pred dom(l []string, b int, a int) = b != a && pmatch(l[b], l[a], 0, 0) && (b < a || !pmatch(l[a], l[b], 0, 0))
 //@ func (s *Service) subscribe() (rerr error)
 //@   requires s != nil && muxOK(s.Mux) && !isNil(s.nc)
+//@   ensures frame: same(s.nc, old(s.nc)) && s.Mux == old(s.Mux) && muxOK(s.Mux) && chclosed == old(chclosed)
 //@   requires path: pvalid0(s.Mux.path) && forall(k, 0, len(s.Mux.path), !wildAt(s.Mux.path, k))
 //@   requires ownR: imp(ref(s.resetResources) != 0, ownOK(s.resetResources))
 //@   requires ownA: imp(ref(s.resetAccess) != 0, ownOK(s.resetAccess))
@@ -1245,3 +1246,34 @@ package res
 //@   may_panic
 //@   callback fn routeCB
 //@   ensures ok: muxOK(m) && sub != nil && sub.root.mounted
+//@
+//@ # ================================================================ serve: the base case of the monitor proof (C01-C03)
+//@ # serve (re)initialises the worker state before any worker exists: the monitor invariant must hold in that state,
+//@ # with no live work item (the ghost state of the monitor is reset). `thread init`: no other thread uses the monitor
+//@ # while serve initialises it (assumed: Serve only runs from the stopped state, after Shutdown has waited for the workers).
+//@ func (m *Mux) ValidateListeners() (err error)
+//@   nobody
+//@   requires m != nil
+//@   modifies alloc
+//@ func (s *Service) startListener(ch chan *nats.Msg)
+//@   nobody
+//@   requires s != nil
+//@   modifies all
+//@ func callback.onServeCB(self ref, s *Service)
+//@   modifies all
+//@ func (s *Service) serve(nc Conn) (rerr error)
+//@   thread init
+//@   requires s != nil && !isNil(nc) && muxOK(s.Mux) && s.inChannelSize >= 0 && s.workerCount >= 0 && forallge(q, nextRef(), !chclosed[q])
+//@   requires path: pvalid0(s.Mux.path) && forall(k, 0, len(s.Mux.path), !wildAt(s.Mux.path, k))
+//@   requires ownR: imp(ref(s.resetResources) != 0, ownOK(s.resetResources))
+//@   requires ownA: imp(ref(s.resetAccess) != 0, ownOK(s.resetAccess))
+//@   modifies all
+//@   callback onServe onServeCB
+//@   callsite close#1 builtin.closeLocal
+//@   # no work item is live when the workers are started
+//@   ghost call WaitGroup.Add#1 before :: set wst = zeroarr()
+//@   ghost call WaitGroup.Add#1 before :: set wincb = zeroarr()
+//@   ghost call WaitGroup.Add#1 before :: set closing = false
+//@   ghost call WaitGroup.Add#1 before :: set qhead = 0
+//@   ghost call WaitGroup.Add#1 before :: assert init: moninv(s)
+//@   loop 1 invariant s != nil
